@@ -110,5 +110,16 @@ pub fn candidates(seed: u64) -> Vec<Value> {
             for sh in shapes(&p) { out.push(json!({"case": "vtree_mgr", "vtree": sh})); }
         }
     }
+    // larger trees (20-70 leaves, random shape and labelling), all pairs of indices
+    fn rand_shape(labels: &[u64], nx: &mut dyn FnMut(u64) -> u64) -> Value {
+        if labels.len() == 1 { return json!(labels[0]); }
+        let k = 1 + nx(labels.len() as u64 - 1) as usize;
+        json!([rand_shape(&labels[..k], nx), rand_shape(&labels[k..], nx)])
+    }
+    for n in [20u64, 33, 64, 65, 70] {
+        let mut p: Vec<u64> = (0..n).collect();
+        for i in (1..n as usize).rev() { let j = nx(i as u64 + 1) as usize; p.swap(i, j); }
+        out.push(json!({"case": "vtree_mgr", "vtree": rand_shape(&p, &mut nx)}));
+    }
     out
 }
